@@ -35,7 +35,7 @@ func init() {
 		Rule: "part 1 (name lattice): the product {explicit name: WithName omitted, WithName(\"\"), valid, invalid (dots, upper case, leading _/-, space)} x " +
 			"{COMPOSE_PROJECT_NAME: absent, or defined in every non-empty subset of {WithEnv, OS env, .env #1, .env #2} with distinct values; all valid, winner invalid, loser invalid, winner empty} x " +
 			"{name: in no file, first, last, several of 2..3 files; literal, interpolated (from each env layer, with default), normalisable, leading symbols, normalising to empty, empty text} x " +
-			"{directory base names: plain, upper case, dots, leading _/-, unicode, symbols only, space, digit first} is enumerated completely; each point is loaded through cli.NewProjectOptions + LoadProject " +
+			"{directory base names: plain, upper case, dots, leading _/-, unicode, symbols only, space, digit first; a fifth of the points make the project directory a symbolic link to a directory with another base name} is enumerated completely; each point is loaded through cli.NewProjectOptions + LoadProject " +
 			"with the option list in one of the 72 documented orders (WithEnv, WithOsEnv, WithEnvFiles before WithDotEnv; WithWorkingDirectory before WithEnvFiles; WithName anywhere) chosen by rotation over the lattice (offset by the seed; the quick tier enumerates the product of reduced value sets, the thorough tier of the full sets), rotating working-directory modes (implicit from the first compose file, absolute, relative to cwd, compose files outside the project directory) and .env discovery (default .env / explicit list). " +
 			"part 2 (environment lattice): one variable per non-empty subset of the four layers with distinct values, plus .env values referencing variables defined in every subset of the layers above them, in every documented order x working-directory mode x .env discovery mode x {plain, winning definition empty}. " +
 			"A case is non-trivial when at least two sources compete for the name or the deciding source needs normalisation / falls through (part 1), or a variable is defined in at least two layers (part 2); distinct = distinct semantic case descriptions.",
@@ -93,8 +93,8 @@ type sem struct {
 	Part     string `json:"part"` // name | env
 	Dir      string `json:"dir"`
 	Symlink  string `json:"symlink,omitempty"` // Dir is a symbolic link to a sibling directory of this name
-	WdMode   string `json:"wd_mode"`  // none | abs | rel | other
-	NameOpt  string `json:"name_opt"` // omit | set
+	WdMode   string `json:"wd_mode"`           // none | abs | rel | other
+	NameOpt  string `json:"name_opt"`          // omit | set
 	Explicit string `json:"explicit"`
 	// per layer: ordered definitions
 	X  []entry `json:"x,omitempty"`
